@@ -30,6 +30,8 @@ func (gs GenesisState) Validate() error {
 
 	for _, elem := range gs.AllowedBidderList {
 		index := fmt.Sprint(elem.AuctionId)
+		// an allowed bidder is identified by its auction and its address
+		index += "/" + elem.Bidder
 		if _, ok := allowedBidderIndexMap[index]; ok {
 			return fmt.Errorf("duplicated index for allowedBidder")
 		}
@@ -44,6 +46,8 @@ func (gs GenesisState) Validate() error {
 
 	for _, elem := range gs.VestingQueueList {
 		index := fmt.Sprint(elem.AuctionId)
+		// a vesting queue is identified by its auction and its release time
+		index += "/" + elem.ReleaseTime.UTC().String()
 		if _, ok := vestingQueueIndexMap[index]; ok {
 			return fmt.Errorf("duplicated index for vestingQueue")
 		}
@@ -54,12 +58,14 @@ func (gs GenesisState) Validate() error {
 		}
 	}
 	// Check for duplicated ID in bid
-	bidIdMap := make(map[uint64]bool)
+	// bid ids are assigned per auction: a bid is identified by its auction and its id
+	bidIdMap := make(map[string]bool)
 	for _, elem := range gs.BidList {
-		if _, ok := bidIdMap[elem.Id]; ok {
+		index := fmt.Sprintf("%d/%d", elem.AuctionId, elem.Id)
+		if _, ok := bidIdMap[index]; ok {
 			return fmt.Errorf("duplicated id for bid")
 		}
-		bidIdMap[elem.Id] = true
+		bidIdMap[index] = true
 
 		if err := elem.Validate(); err != nil {
 			return err
